@@ -15,6 +15,10 @@ using srv_t = bluetoe::server<
     bluetoe::service< bluetoe::service_uuid16< 0x1801 >, bluetoe::characteristic< bluetoe::characteristic_uuid16< 0x1000 >, bluetoe::bind_characteristic_value< std::uint8_t, &a1 >, bluetoe::notify > >,
     bluetoe::service< bluetoe::attribute_handle< 0x10 >, bluetoe::service_uuid16< 0x1802 >, bluetoe::characteristic< bluetoe::characteristic_uuid16< 0x1001 >, bluetoe::bind_characteristic_value< std::uint8_t, &a2 > > >,
     bluetoe::service< bluetoe::attribute_handle< 0x40 >, bluetoe::service_uuid16< 0x1803 >, bluetoe::characteristic< bluetoe::characteristic_uuid16< 0x1002 >, bluetoe::bind_characteristic_value< std::uint8_t, &a3 >, bluetoe::indicate > > >;
+// the same services, but the first one does not start at handle 1
+using srv_gap_t = bluetoe::server<
+    bluetoe::service< bluetoe::attribute_handle< 0x10 >, bluetoe::service_uuid16< 0x1801 >, bluetoe::characteristic< bluetoe::characteristic_uuid16< 0x1000 >, bluetoe::bind_characteristic_value< std::uint8_t, &a1 >, bluetoe::notify > >,
+    bluetoe::service< bluetoe::attribute_handle< 0x40 >, bluetoe::service_uuid16< 0x1803 >, bluetoe::characteristic< bluetoe::characteristic_uuid16< 0x1002 >, bluetoe::bind_characteristic_value< std::uint8_t, &a3 >, bluetoe::indicate > > >;
 struct conn_t : srv_t::connection_data {
     std::pair< bluetoe::details::notification_queue_entry_type, std::size_t > dequeue_indication_or_confirmation() { return { bluetoe::details::notification_queue_entry_type::empty, 0 }; }
     bluetoe::connection_security_attributes security_attributes() const { return bluetoe::connection_security_attributes(); }
@@ -29,9 +33,9 @@ struct wide_conn_t : wide_t::connection_data {
     std::pair< bluetoe::details::notification_queue_entry_type, std::size_t > dequeue_indication_or_confirmation() { return { bluetoe::details::notification_queue_entry_type::empty, 0 }; }
     bluetoe::connection_security_attributes security_attributes() const { return bluetoe::connection_security_attributes(); }
 };
-int main( int argc, char** argv )
+template < class srv_t, class conn_t >
+static int sweep()
 {
-    replay_args a( argc, argv );
     srv_t srv; conn_t c;
     using map = bluetoe::details::handle_index_mapping< srv_t >;
     // the table as the server itself reports it
@@ -57,6 +61,16 @@ int main( int argc, char** argv )
         if ( !ok ) { std::printf( "REPRODUCED: Read By Type %04x..%04x type %04x ->", start, end, type ); for ( std::size_t i = 0; i < os && i < 23; ++i ) std::printf( " %02x", out[ i ] );
                      std::printf( "   expected handles:" ); for ( unsigned h : expected ) std::printf( " %04x", h ); std::printf( "\n" ); return 1; }
     }
+    return 0;
+}
+struct gap_conn_t : srv_gap_t::connection_data {
+    std::pair< bluetoe::details::notification_queue_entry_type, std::size_t > dequeue_indication_or_confirmation() { return { bluetoe::details::notification_queue_entry_type::empty, 0 }; }
+    bluetoe::connection_security_attributes security_attributes() const { return bluetoe::connection_security_attributes(); }
+};
+int main( int argc, char** argv )
+{
+    replay_args a( argc, argv );
+    if ( sweep< srv_t, conn_t >() || sweep< srv_gap_t, gap_conn_t >() ) return 1;
     // every MTU 23..64 on the server with 42 characteristics: the response fits the MTU, consists of whole tuples, nothing behind the buffer is written
     for ( unsigned mtu = 23; mtu <= 64; ++mtu ) for ( unsigned type : { 0x2803u, 0x2800u, 0x1005u, 0x2a00u } ) {
         wide_t wide; wide_conn_t wc; wc.client_mtu( mtu );
